@@ -18,36 +18,37 @@ open CM.Merge
     No field of the table is left out (specStruct maps over ALL fields). -/
 theorem checker_sound (types : List TypeDef) (hall : checkAll types = true) (fuel : Nat) (td : TypeDef) (htd : td ∈ types)
     (r o : List (String × Val)) (hr : conforms types fuel td.fields r = true) (ho : conforms types fuel td.fields o = true) :
-    evalStmts types fuel td.fields td.prog r o = specStruct types fuel td.fields r o := by
-  sorry
+    evalStmts types fuel td.fields td.prog r o = specStruct types fuel td.fields r o :=
+  sound_all types hall fuel td htd r o hr ho
 
 /-- what the specification says for the basic kinds, spelled out -/
 theorem spec_scalar (types : List TypeDef) (fuel a b : Nat) :
     fillGap types fuel .scalar (.scalar a) (.scalar b) = .scalar (if a = 0 then b else a) := by
-  sorry
+  simp [fillGap]
 theorem spec_bool (types : List TypeDef) (fuel : Nat) (a b : Bool) :
     fillGap types fuel .bool (.bool a) (.bool b) = .bool (a || b) := by
-  sorry
+  simp [fillGap]
 theorem spec_list (types : List TypeDef) (fuel : Nat) (a b : List Nat) :
     fillGap types fuel .list (.list a) (.list b) = .list (a ++ b) := by
-  sorry
+  simp [fillGap]
 /-- map union: the receiver's entries win, other's missing keys are added -/
 theorem spec_map_receiver_wins (r o : List (Nat × Nat)) (k : Nat) (hk : mapHas r k = true) :
-    (mapUnionLeft r o).filter (·.1 == k) = r.filter (·.1 == k) := by
-  sorry
+    (mapUnionLeft r o).filter (·.1 == k) = r.filter (·.1 == k) :=
+  mapUnionLeft_filter_of_has o r k hk
 theorem spec_map_adds_missing (r o : List (Nat × Nat)) (k v : Nat) (hk : mapHas r k = false) (hv : (k, v) ∈ o) :
     mapHas (mapUnionLeft r o) k = true := by
-  sorry
+  have _ := hk
+  exact mapUnionLeft_has_of_mem o r k v hv
 
 /-- layered merging (Manager.CreateCircuit, the factories): folding merges over layers takes each scalar from the
     FIRST layer that sets it, ORs the booleans and concatenates the lists in layer order -/
 theorem fold_first_set (layers : List Nat) :
     layers.foldl (fun acc l => if acc = 0 then l else acc) 0 = (layers.find? (· ≠ 0)).getD 0 := by
-  sorry
+  rw [foldl_first_set]; simp
 theorem fold_or (layers : List Bool) : layers.foldl (fun acc l => acc || l) false = layers.any id := by
-  sorry
+  rw [foldl_or]; simp
 theorem fold_append (layers : List (List Nat)) : layers.foldl (fun acc l => acc ++ l) [] = layers.flatten := by
-  sorry
+  rw [foldl_append]; simp
 
 /-- THE REGENERATED OBLIGATION: every config type with a Merge method found in the Go source today passes the checker -/
 theorem all_merges_ok : checkAll CM.Generated.mergeTypes = true := by decide
